@@ -221,8 +221,7 @@ def run(ctx):
                 ctx.brk('correspondence', 'dea3 disagrees bit-for-bit with Model/Dea3.v', descs[s + i])
     ctx.cov['traces_validated_against_impl'] = len(cases)
     ctx.cov['correspondence_disagreements'] = nbad
-    if ctx.broken or ctx.thorough:
-        search(ctx, ctx.n(3000, 30000))
+    search(ctx, ctx.n(3000, 30000) if (ctx.broken or ctx.thorough) else 400)
     ctx.assumptions += ['theorems are about exact real arithmetic with EPS, TINY >= 0 as parameters; binary64 behaviour is tied bit-exactly but the rounding clause itself is explored (sweep with exact-rational oracle), not proved',
                         '"leaves its inputs unmodified" and "raises nothing" are observed by the harness (a pure model cannot express aliasing)']
     return ctx.finish(level='proof', checker_cmd='make -C coq Props/C13.vo + coqc build/cases/C13_*.v',
